@@ -6,6 +6,7 @@ package main
 import (
 	"bytes"
 	"crypto/rsa"
+	"crypto/sha1"
 	"fmt"
 	"go/ast"
 	"go/parser"
@@ -391,6 +392,95 @@ func run(c *hc.Ctx) error {
 		}
 	}
 
+	// ---- directed cases for the padding/normalisation of big integers: ciphertexts and decrypted
+	// blocks whose big-endian form starts with a zero byte (1 in 256 at random; searched here)
+	decPad := func(k key, enc []byte) string {
+		return safely(func() string {
+			out, err := crypto.DecodeRSAPad(enc, k.priv)
+			if err != nil {
+				return tag(err)
+			}
+			return "ok " + hc.Hex(out)
+		})
+	}
+	decHashed := func(k key, enc []byte) string {
+		return safely(func() string {
+			out, err := crypto.RSADecryptHashed(enc, k.priv)
+			if err != nil {
+				return tag(err)
+			}
+			return "ok " + hc.Hex(out)
+		})
+	}
+	rawDec := func(k key, enc []byte) *big.Int {
+		return new(big.Int).Exp(new(big.Int).SetBytes(enc), k.priv.D, k.priv.N)
+	}
+	for i := 0; i < c.N(6, 60); i++ {
+		k := keys[i%len(keys)]
+		l := r.Range(0, 144)
+		wantBlock := i%2 == 1 // odd: the *decrypted* block key_aes_encrypted starts with a zero byte; even: the ciphertext
+		for t := 0; t < 20000; t++ {
+			data, tape := r.Bytes(l), r.Bytes(192-l+32*8)
+			enc, err := crypto.RSAPad(data, &k.priv.PublicKey, bytes.NewReader(tape))
+			if err != nil || (!wantBlock && enc[0] != 0) {
+				continue
+			}
+			if wantBlock && rawDec(k, enc).BitLen() > 2040 {
+				continue
+			}
+			kind := "ciphertext-leading-zero"
+			if wantBlock {
+				kind = "block-leading-zero"
+			}
+			pl := fmt.Sprintf("pad %s %s %s", pubLine(k), hc.Hex(data), hc.Hex(tape))
+			dl := fmt.Sprintf("unpad %s %s", privLine(k), hc.Hex(enc))
+			dgot := decPad(k, enc)
+			c.Eval(pl, true)
+			c.Eval(dl, true)
+			c.Count("pad.directed." + kind)
+			if want := "ok " + hc.Hex(append(append([]byte{}, data...), tape[:192-l]...)); dgot != want {
+				c.Fail("rsapad-roundtrip", pl, kind+": DecodeRSAPad(RSAPad(data)) = "+dgot)
+			}
+			add(pl, "ok "+hc.Hex(enc))
+			add(dl, dgot)
+			break
+		}
+	}
+	for i := 0; i < c.N(6, 60); i++ {
+		k := keys[i%len(keys)]
+		l := r.Range(0, 235)
+		wantBlock := i%2 == 1 // odd: SHA1(data) (first byte of the decrypted block) starts with zero; even: the ciphertext
+		for t := 0; t < 20000; t++ {
+			data, tape := r.Bytes(l), r.Bytes(255)
+			if wantBlock && (l == 0 || sha1.Sum(data)[0] != 0) {
+				if l == 0 {
+					l = 1
+				}
+				continue
+			}
+			enc, err := crypto.RSAEncryptHashed(data, &k.priv.PublicKey, bytes.NewReader(tape))
+			if err != nil || (!wantBlock && enc[0] != 0) {
+				continue
+			}
+			kind := "ciphertext-leading-zero"
+			if wantBlock {
+				kind = "block-leading-zero"
+			}
+			el := fmt.Sprintf("henc %s %s %s", pubLine(k), hc.Hex(data), hc.Hex(tape))
+			dl := fmt.Sprintf("hdec %s %s", privLine(k), hc.Hex(enc))
+			dgot := decHashed(k, enc)
+			c.Eval(el, true)
+			c.Eval(dl, true)
+			c.Count("henc.directed." + kind)
+			if dgot != "ok "+hc.Hex(data) {
+				c.Fail("rsahashed-roundtrip", el, kind+": RSADecryptHashed(RSAEncryptHashed(data)) = "+dgot)
+			}
+			add(el, "ok "+hc.Hex(enc))
+			add(dl, dgot)
+			break
+		}
+	}
+
 	// raw RSA blocks without a matching SHA-1 prefix: the hashed decoder's `hash mismatch` branch
 	for i := 0; i < c.N(20, 300); i++ {
 		k := keys[r.Intn(len(keys))]
@@ -436,7 +526,7 @@ func run(c *hc.Ctx) error {
 	}
 
 	c.Res.Exhaustive = true
-	c.Res.Rule = "RSA_PAD: every data length 0..147 × several random tapes (random/constant data, 6..12 temp keys, some short tapes) over 4 keys (testutil key + 3 PRNG-generated 2047/2048-bit moduli chosen so that the retry branch `key_aes_encrypted ≥ N` is taken often); hashed scheme: every data length 0..238; decoders additionally on one-bit mutations, foreign keys and random inputs; non-trivial = an encryption that succeeded, or any decoder input; distinct = distinct request line"
+	c.Res.Rule = "RSA_PAD: every data length 0..147 × several random tapes (random/constant data, 6..12 temp keys, some short tapes) over 4 keys (testutil key + 3 PRNG-generated 2047/2048-bit moduli chosen so that the retry branch `key_aes_encrypted ≥ N` is taken often); hashed scheme: every data length 0..238; decoders additionally on one-bit mutations, foreign keys and random inputs; directed (searched) cases where the ciphertext or the decrypted RSA block starts with a zero byte (padding/normalisation of big integers); non-trivial = an encryption that succeeded, or any decoder input; distinct = distinct request line"
 	c.PartialNote("rejection of foreign-key/altered ciphertexts is conditional on SHA-256/SHA-1 preimage resistance: exercised, and proved only in the form success ⇒ hash equation")
 
 	lines := make([]string, len(cs))
